@@ -509,7 +509,7 @@ func TestVerifC09Tunnels(t *testing.T) {
 // C12 on the TCP paths: a connection whose peer the rules reject is closed and no upstream is dialled.
 func TestVerifC12TCP(t *testing.T) {
 	L := ev.Begin("C12", "c12-tcp", "exploration",
-		"tcp / tcp+sni / tcp-dynamic ServeTCP with in-memory connections carrying *net.TCPAddr peers: rule {allow v4 block, deny v4 block, allow with malformed item} x peer {inside, outside, zone-scoped IPv6}; oracle: rejected peers never cause a dial and get their connection closed; admitted peers are tunnelled. non-trivial = every case")
+		"tcp / tcp+sni / tcp-dynamic ServeTCP with in-memory connections carrying *net.TCPAddr peers: rule {allow v4 block, deny v4 block, allow with malformed item} x peer {inside, outside, zone-scoped IPv6}; oracle: rejected peers never cause a dial and get their connection closed; admitted peers are tunnelled; plus a route with an unreachable rule-less instance and one that rejects the peer: no connection to the latter. non-trivial = every case")
 	type rule struct {
 		opt   string
 		admit func(net.IP) bool
@@ -604,6 +604,66 @@ func TestVerifC12TCP(t *testing.T) {
 					L.Violation("admitted-peer-not-tunnelled/"+kind, d)
 				}
 			}
+		}
+	}
+	// a route with two instances that carry different rules, the first one picked cannot be reached: whatever the
+	// proxy does next, the peer the second instance rejects is not connected to it
+	for _, kind := range []string{"tcp", "sni", "dynamic"} {
+		src := ":1234"
+		if kind == "sni" {
+			src = "sni.example/"
+		}
+		regKey := strings.TrimSuffix(src, "/")
+		tb, err := route.NewTable(bytes.NewBufferString(fmt.Sprintf("route add svc %[1]s tcp://10.0.0.98:9000 opts \"proto=tcp\"\nroute add svc %[1]s tcp://10.0.0.99:9000 opts \"proto=tcp deny=ip:10.0.0.0/8\"\n", src)))
+		if err != nil {
+			panic(err)
+		}
+		var targets []*route.Target
+		for _, rs := range tb {
+			targets = rs[0].Targets
+		}
+		calls := 0
+		lookup := func(k string) *route.Target {
+			if k != regKey {
+				return nil
+			}
+			calls++
+			return targets[(calls-1)%2] // round robin, the unreachable instance first
+		}
+		peer := &net.TCPAddr{IP: net.ParseIP("10.1.2.3"), Port: 1}
+		var env *vnet.Env
+		var in, client *vnet.Conn
+		vsched.Explore(vsched.Options{Bound: 0, AllowDeadlock: true}, func(x *vsched.X) {
+			calls = 0
+			env = &vnet.Env{FailAddrs: map[string]bool{"10.0.0.98:9000": true}}
+			vhook.DialHook = env.DialTimeout
+			in, client = vnet.Pair("in", &net.TCPAddr{IP: net.IPv4(10, 0, 0, 1), Port: 1234}, "client", peer)
+			var serve func(net.Conn) error
+			switch kind {
+			case "tcp":
+				serve = (&Proxy{Lookup: lookup}).ServeTCP
+			case "sni":
+				serve = (&SNIProxy{Lookup: lookup}).ServeTCP
+			case "dynamic":
+				serve = (&DynamicProxy{Lookup: lookup}).ServeTCP
+			}
+			x.Go("proxy", func() { serve(in) })
+			x.Go("client", func() {
+				if kind == "sni" {
+					client.Write(c09Hello)
+				}
+				client.Write([]byte("data"))
+				io.Copy(io.Discard, client)
+			})
+			x.Run()
+			vhook.DialHook = nil
+		})
+		L.Case()
+		L.NontrivialKey("unreachable-first-instance/" + kind)
+		d := map[string]interface{}{"listener": kind, "instances": "10.0.0.98:9000 (no rule, refuses connections), 10.0.0.99:9000 (deny=ip:10.0.0.0/8)", "peer": peer.String(), "dialled": env.DialLog, "connections_established": len(env.Accepted)}
+		L.Sample(d)
+		if len(env.Accepted) != 0 {
+			L.Violation("rejected-peer-reached-upstream-or-kept-its-connection/"+kind+"/after-a-failed-dial", d)
 		}
 	}
 	L.End(true)
